@@ -162,8 +162,8 @@ func uniq(xs []string) []string {
 var c03Keys = []string{"a", "b", "c", "dir/x"}
 
 // distinct strings that a path-like normalisation would merge
-var c03OddKeys = []string{"a", "a/", "./a", "dir/x", "dir//x", "dir/./x", ".", "a/.."}
-var c03Patterns = []string{"*", "a*", "?", "dir/*", "[ab]", "a", "b", "dir/x", "a/"}
+var c03OddKeys = []string{"a", "a/", "./a", "dir/x", "dir//x", "dir/./x", ".", "a/..", emptyKey, "b"}
+var c03Patterns = []string{"*", "a*", "?", "dir/*", "[ab]", "a", "b", "dir/x", "a/", emptyKey, "?*"}
 
 func genC03(g *gen, c *sim.Case, tier string) {
 	r := g.r
@@ -247,7 +247,15 @@ func (g *gen) seqOp(keys []string, withShortExpiry bool) sim.Op {
 		}
 		return op
 	default:
-		return sim.Op{K: "list", S: c03Patterns[r.Intn(len(c03Patterns))]}
+		pat := c03Patterns[r.Intn(len(c03Patterns))]
+		for _, k := range keys {
+			// gobwas/glob lets "?" match the empty string, Redis does not: with the empty
+			// key in play "?" is outside the subset on which the two dialects agree
+			if k == emptyKey && strings.Contains(pat, "?") {
+				pat = "*"
+			}
+		}
+		return sim.Op{K: "list", S: pat}
 	}
 }
 
@@ -275,6 +283,17 @@ func genC06(g *gen, c *sim.Case, tier string) {
 				op.E = 1000 + int64(d) + int64(2*time.Second) // safety deadline well after it
 			}
 			t.Ops = append(t.Ops, op)
+			c.Tasks = append(c.Tasks, t)
+		}
+		if r.Chance(1, 2) {
+			// a writer replaces the record right around its expiry instant (no expiry /
+			// a later one): the fresh record must survive whatever the parked waiters do
+			off := time.Duration(r.Intn(41)-20) * time.Duration(c.Sched.MaxJitter) / 4
+			t := sim.Task{Name: "m1"}
+			t.Ops = append(t.Ops, sim.Op{K: "jump", D: int64(d + off)})
+			t.Ops = append(t.Ops, sim.Op{K: "put", S: "a", V: "x2", D: int64(sim.Pick(r, 0, time.Hour))})
+			t.Ops = append(t.Ops, sim.Op{K: "jump", D: int64(sim.Pick(r, time.Microsecond, time.Millisecond, 300*time.Millisecond))})
+			t.Ops = append(t.Ops, sim.Op{K: "get", S: "a", F: true})
 			c.Tasks = append(c.Tasks, t)
 		}
 		return
